@@ -1,5 +1,6 @@
 import BeyondVerif.Model.Node
 import BeyondVerif.Model.Registry
+import BeyondVerif.Model.RegistryStr
 import BeyondVerif.Generated.RegSites
 import BeyondVerif.Drv.Util
 namespace BeyondVerif.Drv.C20
@@ -143,6 +144,52 @@ def regOp (args : List String) : String :=
     | _, _, _, _, _ => "bad-op"
   | _ => "bad-op"
 
+def cpList? (s : String) : Option (List Nat) :=
+  if s = "-" then some [] else (s.splitOn ".").mapM (·.toNat?)
+
+/-- `sreg <n> <names> <classes> <mro> <root> <strs> <op> …` : as `reg`, but the method table is keyed by the attribute-name
+STRING `f"{a}_to_{b}"` (`Model/RegistryStr.lean`); `strs` gives, for the name identifiers 0, 1, …, the code points of the
+name (`;`-separated, code points joined by `.`) -/
+def sregOp (args : List String) : String :=
+  match args with
+  | n :: names :: classes :: mro :: root :: strs :: ops =>
+    match n.toNat?, natList? names, natList? classes, parseMro? mro, root.toNat?, (strs.splitOn ";").mapM cpList? with
+    | some n, some names, some classes, some mro, some root, some strs =>
+      if names.length ≠ n ∨ classes.length ≠ n ∨ names.any (fun k => k ≥ strs.length) then "bad-op" else
+      let w : Reg.World := {
+        nm := fun i => names.getD i i
+        cls := fun i => classes.getD i 0
+        mro := fun c => match mro.lookup c with | some l => l | none => [c] }
+      let str := fun k => strs.getD k []
+      match ops.mapM (parseRegOp? w root) with
+      | none => "bad-op"
+      | some opss =>
+        let fuel := n + 2
+        match RegS.applyOpsS w str fuel {} opss.flatten with
+        | none => "fuel"
+        | some st =>
+          let goals := distinctSorted names
+          let conv := (List.range n).flatMap (fun s => goals.map (fun t => showConv (RegS.convertS w str (n + 2) st s t)))
+          dumpGraph n st.g ++ " C " ++ joinWith ";" conv
+    | _, _, _, _, _, _ => "bad-op"
+  | _ => "bad-op"
+
+/-- `goodname <code points>` : the decidable hypothesis of `linkKey_injective` on one name -/
+def goodnameOp (args : List String) : String :=
+  match args with
+  | [s] => match cpList? s with
+    | some l => if RegS.goodName l then "1" else "0"
+    | none => "bad-op"
+  | _ => "bad-op"
+
+/-- `linkkey <a> <b>` : code points of `f"{a}_to_{b}"` -/
+def linkkeyOp (args : List String) : String :=
+  match args with
+  | [a, b] => match cpList? a, cpList? b with
+    | some a, some b => joinWith "." ((LinkKey.linkKey a b).map toString)
+    | _, _ => "bad-op"
+  | _ => "bad-op"
+
 /-- `sites` : labels of the regenerated registration sites, in the order of their indices -/
 def sitesOp : String := joinWith ";" (BeyondVerif.Generated.regSites.map (·.1))
 
@@ -150,6 +197,9 @@ def handle : List String → Option String
   | "node" :: args => some (nodeOp args)
   | "nnode" :: args => some (nnodeOp args)
   | "reg" :: args => some (regOp args)
+  | "sreg" :: args => some (sregOp args)
+  | "goodname" :: args => some (goodnameOp args)
+  | "linkkey" :: args => some (linkkeyOp args)
   | "sites" :: _ => some sitesOp
   | _ => none
 
